@@ -56,6 +56,8 @@ val mul : nat -> nat -> nat
 
 val sub : nat -> nat -> nat
 
+val eqb : nat -> nat -> bool
+
 type positive =
 | XI of positive
 | XO of positive
@@ -1168,3 +1170,91 @@ val decode_range_sv : json -> (semver bound * semver bound) list option
 val encode_provider_u32 : RZ.range provider -> json
 
 val decode_provider_u32 : json -> RZ.range provider option
+
+type ('vS, 'vr) merge_res =
+| MMerged of ('vS, 'vr) tree
+| MNotMergeable
+| MPanic
+
+val merge_no_versions :
+  ('a1, 'a2) vSOps -> ('a1, 'a2) tree -> pkg0 -> 'a1 -> ('a1, 'a2) merge_res
+
+type ('vS, 'vr) collapse_res =
+| CTree of ('vS, 'vr) tree
+| CPanic
+
+val merge_or_keep :
+  ('a1, 'a2) vSOps -> ('a1, 'a2) tree -> pkg0 -> 'a1 -> ('a1, 'a2) tree ->
+  ('a1, 'a2) collapse_res
+
+val collapse_no_versions :
+  ('a1, 'a2) vSOps -> ('a1, 'a2) tree -> ('a1, 'a2) collapse_res
+
+type ('vS, 'vr) step_kind =
+| KBothExternal of ('vS, 'vr) external0 * ('vS, 'vr) external0
+| KBothRef of nat * (pkg0 * 'vS term) list * nat * (pkg0 * 'vS term) list
+| KRefAndExternal of nat * (pkg0 * 'vS term) list * ('vS, 'vr) external0
+| KAndExternal of ('vS, 'vr) external0
+| KAndRef of nat * (pkg0 * 'vS term) list
+| KAndPriorAndExternal of ('vS, 'vr) external0 * ('vS, 'vr) external0
+| KBlank
+| KOnlyExternal of ('vS, 'vr) external0
+
+type ('vS, 'vr) step = { s_kind : ('vS, 'vr) step_kind;
+                         s_concl : (pkg0 * 'vS term) list; s_nums : nat list }
+
+type ('vS, 'vr) rstate = { ref_count : nat;
+                           shared_with_ref : (nat * nat) list;
+                           lines : ('vS, 'vr) step list }
+
+val rstate_new : ('a1, 'a2) rstate
+
+val lookup : nat -> (nat * nat) list -> nat option
+
+val line_ref_of : ('a1, 'a2) rstate -> nat option -> nat option
+
+val push :
+  ('a1, 'a2) rstate -> ('a1, 'a2) step_kind -> (pkg0 * 'a1 term) list ->
+  ('a1, 'a2) rstate
+
+val add_num : ('a1, 'a2) step -> nat -> ('a1, 'a2) step
+
+val add_line_ref : ('a1, 'a2) rstate -> ('a1, 'a2) rstate
+
+val insert_shared : ('a1, 'a2) rstate -> nat -> nat -> ('a1, 'a2) rstate
+
+val bind0 :
+  ('a1, 'a2) rstate option -> (('a1, 'a2) rstate -> ('a1, 'a2) rstate option)
+  -> ('a1, 'a2) rstate option
+
+val report_recurse_one_each :
+  ((pkg0 * 'a1 term) list -> nat option -> ('a1, 'a2) tree -> ('a1, 'a2) tree
+  -> ('a1, 'a2) rstate -> ('a1, 'a2) rstate option) -> (pkg0 * 'a1 term) list
+  -> nat option -> ('a1, 'a2) tree -> ('a1, 'a2) tree -> ('a1, 'a2) external0
+  -> (pkg0 * 'a1 term) list -> ('a1, 'a2) rstate -> ('a1, 'a2) rstate option
+
+val report_one_each :
+  ((pkg0 * 'a1 term) list -> nat option -> ('a1, 'a2) tree -> ('a1, 'a2) tree
+  -> ('a1, 'a2) rstate -> ('a1, 'a2) rstate option) -> (pkg0 * 'a1 term) list
+  -> nat option -> ('a1, 'a2) tree -> ('a1, 'a2) tree -> ('a1, 'a2) external0
+  -> (pkg0 * 'a1 term) list -> ('a1, 'a2) rstate -> ('a1, 'a2) rstate option
+
+val build_recursive_helper :
+  ((pkg0 * 'a1 term) list -> nat option -> ('a1, 'a2) tree -> ('a1, 'a2) tree
+  -> ('a1, 'a2) rstate -> ('a1, 'a2) rstate option) -> (pkg0 * 'a1 term) list
+  -> nat option -> ('a1, 'a2) tree -> ('a1, 'a2) tree -> ('a1, 'a2) rstate ->
+  ('a1, 'a2) rstate option
+
+val build_recursive :
+  nat -> (pkg0 * 'a1 term) list -> nat option -> ('a1, 'a2) tree -> ('a1,
+  'a2) tree -> ('a1, 'a2) rstate -> ('a1, 'a2) rstate option
+
+val tree_size : ('a1, 'a2) tree -> nat
+
+type ('vS, 'vr) report_res =
+| RSteps of ('vS, 'vr) step list
+| ROutOfFuel
+
+val report_with_fuel : nat -> ('a1, 'a2) tree -> ('a1, 'a2) report_res
+
+val report_steps : ('a1, 'a2) tree -> ('a1, 'a2) report_res
